@@ -45,6 +45,16 @@ var stillTracked int
 
 var st = map[string]int{}
 
+// counters bumped by goroutines other than the one that runs the scenarios (merged into st at the end)
+var stG = map[string]int{}
+var stGMu sync.Mutex
+
+func bump(k string) {
+	stGMu.Lock()
+	stG[k]++
+	stGMu.Unlock()
+}
+
 // ---------------------------------------------------------------- event log
 type world struct {
 	mode string // tcp | udp
@@ -368,7 +378,7 @@ func (x windowReader) ReadTCP(c net.Conn, t time.Duration) ([]byte, error) {
 		// the read failed although the transport delivered everything it was asked for: the
 		// octets were no TLS record / the TLS handshake failed
 		x.w.log(fmt.Sprintf("rx.%d", fc.id))
-		st["reads_failed_above_the_transport"]++
+		bump("reads_failed_above_the_transport")
 	}
 	return m, err
 }
@@ -428,7 +438,7 @@ func newWorld(mode string) *world {
 			// the server is about to drop / reject this message without calling the handler
 			// (logged before the verdict is handed back: the worker still holds the message)
 			w.log(fmt.Sprintf("ig.%d", dh.Id))
-			st["messages_ignored_or_rejected_by_msgacceptfunc"]++
+			bump("messages_ignored_or_rejected_by_msgacceptfunc")
 		}
 		return act
 	}
@@ -438,7 +448,7 @@ func newWorld(mode string) *world {
 		tiny := w.tinyOwner
 		w.cond.Broadcast()
 		w.mu.Unlock()
-		st["msginvalidfunc_calls"]++
+		bump("msginvalidfunc_calls")
 		if w.mode == "udp" && len(m) < 12 {
 			return // a short datagram: ps.<p> was logged when ReadFrom handed it out; it has no worker
 		}
@@ -1131,7 +1141,7 @@ func (w *world) clientSend(fc *fakeConn, m []byte) {
 		defer w.cw.Done()
 		<-cl.hsDone
 		if cl.hsErr != nil {
-			st["tls_client_sends_without_a_session"]++
+			bump("tls_client_sends_without_a_session")
 			return
 		}
 		cl.sendMu.Lock()
@@ -1178,8 +1188,8 @@ func (w *world) clientsWrapUp() {
 		}
 		fc.mu.Lock()
 		closed := fc.closed
+		natural := closed && !fc.eof && !fc.clientGone // (a client the harness has closed may not have read everything)
 		fc.mu.Unlock()
-		natural := closed
 		if !closed {
 			fc.endClient()
 		}
@@ -1759,7 +1769,7 @@ func badMsg(id, kind int) (m []byte, override dns.MsgAcceptAction, hasOverride b
 	case 4:
 		return append(hdr(0x8180, 1), q...), 0, false
 	case 5:
-		return hdr(0x0100, 1), 0, false
+		return append(hdr(0x0100, 1), 5, 'a'), 0, false // a label that runs past the end
 	case 6:
 		return append(hdr(3<<11, 1), q...), 0, false
 	case 7:
@@ -2338,7 +2348,16 @@ func runPlan(mode, name string, plan []string, attempt int) bool {
 	for _, k := range hkeys {
 		w.releaseHold(k)
 	}
+	w.mu.Lock()
+	gids := map[int]bool{}
+	for id := range w.gates {
+		gids[id%1000] = true
+	}
+	w.mu.Unlock()
 	for id := range reqCount {
+		gids[id] = true
+	}
+	for id := range gids {
 		for i := 0; i < 4; i++ {
 			w.release(id)
 			w.gate(1000 + id) <- struct{}{}
@@ -2424,6 +2443,11 @@ func runC13(r *Rng, tier string, n int) {
 					plan = append(plan, "Wdr.0.0", "Wsr.0")
 					runPlan(mode, fmt.Sprintf("order-k%d-m%d-p%d", k, mi, pos), plan, 0)
 					st["family_orders"]++
+					if mode == "tcp" && (thorough || k < 2 || (mi+pos)%6 == 0) {
+						// the same over a real crypto/tls listener (handshake inside the first read)
+						runPlan(mode, fmt.Sprintf("order-tls-k%d-m%d-p%d", k, mi, pos), withTLS(plan), 0)
+						st["family_orders_tls"]++
+					}
 				}
 			}
 		}
@@ -2476,6 +2500,10 @@ func runC13(r *Rng, tier string, n int) {
 			plan := sp[name]
 			runPlan(mode, name, plan, 0)
 			st["family_special"]++
+			if mode == "tcp" {
+				runPlan(mode, name+"-tls", withTLS(plan), 0)
+				st["family_special_tls"]++
+			}
 		}
 	}
 	// ---- C. unsynchronised runs: requests, releases and Shutdown race for real
@@ -2492,11 +2520,33 @@ func runC13(r *Rng, tier string, n int) {
 		if thorough {
 			k = 1 + r.Intn(4)
 		}
+		// every second run: over a crypto/tls listener (tcp) and / or with messages that must not
+		// reach a handler next to the queries (tcp: on the same connections, kinds that carry an id)
+		useTLS := mode == "tcp" && i%2 == 1 && r.Intn(2) == 0
+		noise := i%2 == 1
 		var seqs [][]string
 		for c := 1; c <= k; c++ {
 			s := []string{fmt.Sprintf("q%d", c), fmt.Sprintf("R%d", c)}
+			if noise && mode == "tcp" && r.Intn(2) == 0 {
+				s = append([]string{fmt.Sprintf("b%d.%d", c, 2+r.Intn(nBadKinds-2))}, s...)
+			}
 			if mode == "tcp" {
 				s = append([]string{fmt.Sprintf("C%d", c)}, s...)
+			}
+			seqs = append(seqs, s)
+		}
+		if noise && mode == "udp" {
+			var s []string
+			for j, nb := 0, 1+r.Intn(3); j < nb; j++ {
+				s = append(s, fmt.Sprintf("b%d.%d", 11+j, r.Intn(nBadKinds)))
+			}
+			seqs = append(seqs, s)
+		}
+		if noise && mode == "tcp" && r.Intn(2) == 0 {
+			// a client that never sends a message: silent, or junk
+			s := []string{"c8.0"}
+			if r.Bool() {
+				s = append(s, fmt.Sprintf("x8.%d", r.Intn(len(junkKinds))))
 			}
 			seqs = append(seqs, s)
 		}
@@ -2521,6 +2571,9 @@ func runC13(r *Rng, tier string, n int) {
 		full = append(full, "d0")
 		full = append(full, plan[pos:]...)
 		full = append(full, "Wsr.0")
+		if useTLS {
+			full = withTLS(full)
+		}
 		runPlan(mode, fmt.Sprintf("race-%d", i), full, 0)
 		st["family_race"]++
 	}
@@ -2529,6 +2582,10 @@ func runC13(r *Rng, tier string, n int) {
 		for _, hc := range holdCases(mode) {
 			runPlan(mode, "step-"+hc.name, hc.plan, 0)
 			st["family_read_loop_steps"]++
+			if mode == "tcp" {
+				runPlan(mode, "step-tls-"+hc.name, withTLS(hc.plan), 0)
+				st["family_read_loop_steps_tls"]++
+			}
 		}
 	}
 	// ---- G. the same Server value started again after Shutdown: every ordered pair of lives,
@@ -2677,6 +2734,32 @@ func runC13(r *Rng, tier string, n int) {
 			st["family_hijack"]++
 		}
 	}
+	// ---- M. a real crypto/tls listener whose clients do not get through the handshake: silent,
+	//         junk instead of a ClientHello (no record, too short, another protocol, oversized,
+	//         partial), stalled after the first flight, a protocol version the server refuses, a
+	//         client that refuses the certificate, junk / a partial record after the handshake -
+	//         alone, next to a handler in flight, with a context expiry, two of them, junk written
+	//         after the lock region of Shutdown, followed by a restart; raw clients also on a plain
+	//         listener (partial messages)
+	for _, hc := range handshakeCases() {
+		runPlan("tcp", "handshake-"+hc.name, hc.plan, 0)
+		st["family_handshake"]++
+	}
+	// ---- N. input that never reaches a handler (datagrams shorter than a header, messages without a
+	//         complete header, responses, bodies that do not unpack, opcodes not implemented, two
+	//         questions, messages the user's MsgAcceptFunc ignores / rejects) before Shutdown: alone,
+	//         before / while / after a query in flight, behind a running handler on the same
+	//         connection, with a context expiry, after the lock region, followed by a restart
+	for _, mode := range []string{"udp", "tcp", "tls"} {
+		for _, hc := range ignoredInputCases(mode, thorough) {
+			m := mode
+			if m == "tls" {
+				m = "tcp"
+			}
+			runPlan(m, "ignored-"+hc.name, hc.plan, 0)
+			st["family_ignored_input"]++
+		}
+	}
 	// ---- D. real sockets: the same oracles, no model case; every Server value lives twice
 	for i := 0; i < 6; i++ {
 		realRun("udp", 1+i%3, i >= 3)
@@ -2685,6 +2768,11 @@ func runC13(r *Rng, tier string, n int) {
 	// ---- E. a start that fails after srv.started was set
 	failedStart()
 
+	stGMu.Lock()
+	for k, v := range stG {
+		st[k] += v
+	}
+	stGMu.Unlock()
 	Stat(st)
 }
 
@@ -2766,6 +2854,143 @@ func holdCases(mode string) []holdCase {
 				out = append(out, holdCase{nm, plan})
 			}
 		}
+	}
+	return out
+}
+
+func withTLS(plan []string) []string { return append([]string{"M"}, plan...) }
+
+// handshakeCases: see family M in runC13
+func handshakeCases() []holdCase {
+	type odd struct {
+		name   string
+		ops    func(c int) []string
+		prompt bool // the server's read fails by itself (it does not need Shutdown to get rid of the client)
+		junk   int  // raw junk kind (-1: none)
+	}
+	f := func(format string) func(int) []string {
+		return func(c int) []string {
+			var out []string
+			for _, o := range strings.Fields(format) {
+				out = append(out, strings.ReplaceAll(o, "#", fmt.Sprint(c)))
+			}
+			return out
+		}
+	}
+	odds := []odd{
+		{"silent", f("c#.0"), false, -1},
+		{"junk-no-record", f("c#.0 x#.0"), true, 0},
+		{"junk-3-octets", f("c#.0 x#.1"), false, 1},
+		{"junk-http", f("c#.0 x#.2"), true, 2},
+		{"junk-oversized-record", f("c#.0 x#.3"), true, 3},
+		{"junk-partial-handshake", f("c#.0 x#.4"), false, 4},
+		{"stalls-after-first-flight", f("c#.1"), false, -1},
+		{"tls10-only", f("c#.2"), true, -1},
+		{"client-refuses-certificate", f("c#.3"), true, -1},
+		{"junk-after-handshake", f("C# x#.0"), true, -1},
+		{"partial-record-after-handshake", f("C# x#.4"), false, -1},
+	}
+	cat := func(parts ...[]string) []string {
+		var out []string
+		for _, p := range parts {
+			out = append(out, p...)
+		}
+		return out
+	}
+	end := []string{"Wdr.0.0", "Wsr.0"}
+	var out []holdCase
+	for i, o := range odds {
+		o2 := odds[(i+3)%len(odds)]
+		out = append(out,
+			holdCase{o.name + "-alone", cat([]string{"M", "S0"}, o.ops(1), []string{"D0"}, end)},
+			holdCase{o.name + "-inflight", cat([]string{"M", "S0", "C9", "Q9"}, o.ops(1), []string{"D0", "R9"}, end)},
+			holdCase{o.name + "-ctx", cat([]string{"M", "S0", "C9", "Q9"}, o.ops(1), []string{"K0", "k0", "R9", "Wsr.0"})},
+			holdCase{o.name + "-and-" + o2.name, cat([]string{"M", "S0"}, o.ops(1), o2.ops(2), []string{"C9", "Q9", "D0", "R9"}, end)},
+		)
+		if o.prompt {
+			// the failure has been dealt with before Shutdown is called (no verdict on when)
+			out = append(out, holdCase{o.name + "-settled", cat([]string{"M", "S0"}, o.ops(1), []string{"wwc.1", "D0"}, end)})
+		}
+		life := []string{"N", "M", "S0", "C1", "Q1", "D0", "R1", "Wdr.0.0", "Wsr.0"}
+		if i%2 == 1 {
+			life = append([]string{"N"}, life[2:]...) // the next life on a plain listener
+		}
+		out = append(out, holdCase{o.name + "-restart", cat([]string{"M", "S0"}, o.ops(1), []string{"C9", "Q9", "D0", "R9"}, end, life)})
+		if o.junk >= 0 {
+			// the junk is written after the lock region of Shutdown has run
+			out = append(out, holdCase{o.name + "-late", cat([]string{"M", "S0", "c1.0", "C9", "Q9", "D0", fmt.Sprintf("x1.%d", o.junk), "R9"}, end)})
+			// a plain listener: the same octets are a length prefix and a partial message
+			out = append(out,
+				holdCase{o.name + "-plain-alone", cat([]string{"S0"}, o.ops(1), []string{"D0"}, end)},
+				holdCase{o.name + "-plain-inflight", cat([]string{"S0", "C9", "Q9"}, o.ops(1), []string{"K0", "k0", "R9", "Wsr.0"})})
+		}
+	}
+	return out
+}
+
+// ignoredInputCases: see family N in runC13
+func ignoredInputCases(mode string, thorough bool) []holdCase {
+	var out []holdCase
+	end := []string{"Wdr.0.0", "Wsr.0"}
+	seq := 0
+	fin := func(name string, plan []string) {
+		seq++
+		if mode == "tls" {
+			if !thorough && seq%2 == 0 {
+				return // (quick tier: every second one over TLS; all of them on a plain listener)
+			}
+			var p []string
+			for _, o := range plan {
+				if o == "S0" {
+					p = append(p, "M")
+				}
+				p = append(p, o)
+			}
+			plan = p
+		}
+		out = append(out, holdCase{mode + "-" + name, plan})
+	}
+	cat := func(parts ...[]string) []string {
+		var o []string
+		for _, p := range parts {
+			o = append(o, p...)
+		}
+		return o
+	}
+	for k := 0; k < nBadKinds; k++ {
+		nm := fmt.Sprintf("kind%d-", k)
+		if mode == "udp" {
+			B, B2, b := fmt.Sprintf("B11.%d", k), fmt.Sprintf("B12.%d", k+1), fmt.Sprintf("b11.%d", k)
+			fin(nm+"idle", cat([]string{"S0", B, "D0"}, end))
+			fin(nm+"then-inflight", cat([]string{"S0", B, "Q1", "D0", "R1"}, end))
+			fin(nm+"while-inflight", cat([]string{"S0", "Q1", B, "D0", "R1"}, end))
+			fin(nm+"ctx", []string{"S0", "Q1", "R1", B, "Q2", B2, "K0", "k0", "R2", "Wsr.0"})
+			fin(nm+"after-lock-region", cat([]string{"S0", "Q1", "D0", b, "R1"}, end))
+			fin(nm+"restart", cat([]string{"S0", B, B2, "Q1", "D0", "R1"}, end, []string{"N", "S0", B, "D0"}, end))
+			continue
+		}
+		B, B2, b, Bo := fmt.Sprintf("B1.%d", k), fmt.Sprintf("B1.%d", k+1), fmt.Sprintf("b1.%d", k), fmt.Sprintf("B2.%d", k)
+		fin(nm+"idle", cat([]string{"S0", "C1", B, "D0"}, end))
+		fin(nm+"then-query-on-the-connection", cat([]string{"S0", "C1", B, "Q1", "D0", "R1"}, end))
+		fin(nm+"while-inflight", cat([]string{"S0", "C1", "Q1", "C2", Bo, "D0", "R1"}, end))
+		fin(nm+"behind-a-running-handler", cat([]string{"S0", "C1", "Q1", b, "D0", "R1"}, end))
+		fin(nm+"ctx", []string{"S0", "C1", "Q1", "R1", B, "C2", "Q2", B2, "K0", "k0", "R2", "Wsr.0"})
+		fin(nm+"after-lock-region", cat([]string{"S0", "C1", "C2", "Q2", "D0", b, "R2"}, end))
+		fin(nm+"restart", cat([]string{"S0", "C1", B, B2, "Q1", "D0", "R1"}, end, []string{"N", "S0", "C1", B, "D0"}, end))
+	}
+	// every kind in a row, then a query, then Shutdown
+	var all []string
+	for k := 0; k < nBadKinds; k++ {
+		if mode == "udp" {
+			all = append(all, fmt.Sprintf("B%d.%d", 11+k, k))
+		} else {
+			all = append(all, fmt.Sprintf("B1.%d", k))
+		}
+	}
+	if mode == "udp" {
+		fin("all-kinds", cat([]string{"S0"}, all, []string{"Q1", "D0", "R1"}, end))
+	} else {
+		fin("all-kinds", cat([]string{"S0", "C1"}, all, []string{"Q1", "D0", "R1"}, end))
 	}
 	return out
 }
@@ -2922,7 +3147,11 @@ func lifeBodies(mode string) map[string][]string {
 		b["hijack-during"] = []string{"A", "S0", "C1", "J1", "Q1", "D0", "R1", "Y1", "o1", "Wdr.0.0", "Wsr.0", "i1", "y1"}
 		b["step-dl"] = []string{"S0", "C1", "Q1", "Hdl.1", "R1", "Gdl.1", "D0", "Wdr.0.0", "Wsr.0"}
 		b["step-ac"] = []string{"S0", "C2", "Q2", "Hac.1", "C1", "Gac.1", "D0", "R2", "Wdr.0.0", "Wsr.0"}
+		b["tls"] = []string{"M", "S0", "C1", "Q1", "D0", "R1", "Wdr.0.0", "Wsr.0"}
+		b["tls-odd-clients"] = []string{"M", "S0", "c1.0", "x1.0", "c2.1", "c4.0", "C3", "Q3", "D0", "R3", "Wdr.0.0", "Wsr.0"}
+		b["ignored"] = []string{"S0", "C1", "B1.1", "B1.5", "B1.8", "Q1", "C2", "c3.0", "x3.0", "D0", "R1", "Wdr.0.0", "Wsr.0"}
 	} else {
+		b["ignored"] = []string{"S0", "B11.0", "B12.3", "B13.4", "B14.9", "Q1", "B15.2", "D0", "R1", "Wdr.0.0", "Wsr.0"}
 		b["step-dl"] = []string{"S0", "Hdl.0", "Q1", "Gdl.0", "D0", "R1", "Wdr.0.0", "Wsr.0"}
 		b["step-rd"] = []string{"S0", "Q2", "Hrd.1", "q1", "Grd.1", "D0", "R1", "R2", "Wdr.0.0", "Wsr.0"}
 	}
@@ -3445,6 +3674,11 @@ func realOnce(srv *dns.Server, life int, how, network string, k int, withCtx boo
 	} else if time.Since(t0) > 5*time.Second {
 		Viol("C13/double-start-blocked", "second ActivateAndServe blocked", map[string]any{"network": network})
 	}
+	// traffic that must not reach a handler, before the queries: datagrams shorter than a header,
+	// a response, a body that does not unpack, an opcode not implemented (udp); clients that stay
+	// silent, write junk / a partial message, send a message shorter than a header (tcp, tcp-tls)
+	noise := realNoise(network, addr)
+	defer noise.closeAll()
 	// k clients with one request each, handlers held
 	type cl struct {
 		c   *dns.Conn
@@ -3555,6 +3789,14 @@ func realOnce(srv *dns.Server, life int, how, network string, k int, withCtx boo
 	if open, known := sockOpen(sock); known && open {
 		Viol("C13/socket-open-after-shutdown", "the socket the server listened on ("+addr+") was still open after the serve call had returned (real sockets)", in)
 	}
+	// the serve call has returned: no connection of the server remains - not in its tracking, and
+	// the clients that never got a message through see their connection closed
+	if n := srv.VerifTrackedConns(); n > 0 {
+		Viol("C13/connection-open-after-shutdown", fmt.Sprintf("%d connection(s) still in the server's connection tracking (srv.conns) after Shutdown and the serve call had returned (real sockets)", n), in)
+	}
+	if what := noise.stillOpen(); what != "" {
+		Viol("C13/connection-open-after-shutdown", "after Shutdown and the serve call had returned the server still held open the connection of "+what+" (real sockets)", in)
+	}
 	// replies of the in-flight handlers are delivered (after a context expiry
 	// ShutdownContext has closed the UDP socket: nothing to expect there)
 	for _, x := range cls {
@@ -3608,6 +3850,107 @@ func realOnce(srv *dns.Server, life int, how, network string, k int, withCtx boo
 		time.Sleep(2 * time.Millisecond)
 	}
 	return ""
+}
+
+// ---------------------------------------------------------------- real sockets: traffic that reaches no handler
+type noiseConn struct {
+	what string
+	c    net.Conn
+}
+type noiseSet struct{ conns []noiseConn }
+
+var noiseOpenConfirmed int
+
+func realNoise(network, addr string) *noiseSet {
+	ns := &noiseSet{}
+	if network == "udp" {
+		c, err := net.Dial("udp", addr)
+		if err != nil {
+			return ns
+		}
+		defer c.Close()
+		for k := 0; k < nBadKinds; k++ {
+			m, _, _ := badMsg(7000+k, k) // (kinds 8 and 9 are ordinary queries here: ids no handler gate waits for)
+			if k == 8 || k == 9 {
+				continue
+			}
+			c.Write(m)
+			st["real_udp_noise_datagrams"]++
+		}
+		return ns
+	}
+	dial := func(what string) net.Conn {
+		c, err := net.DialTimeout("tcp", addr, 5*time.Second)
+		if err != nil {
+			return nil
+		}
+		ns.conns = append(ns.conns, noiseConn{what, c})
+		return c
+	}
+	dial("a client that writes nothing")
+	if c := dial("a client that writes 12 octets of junk"); c != nil {
+		c.Write(junkKinds[0])
+	}
+	if c := dial("a client that writes 3 octets"); c != nil {
+		c.Write(junkKinds[1])
+	}
+	if network == "tcp" {
+		if c := dial("a client that sent a 5-octet message"); c != nil {
+			c.Write([]byte{0, 5, 0x1b, 0x58, 1, 0, 0})
+		}
+		if c := dial("a client that sent a response"); c != nil {
+			m, _, _ := badMsg(7004, 4)
+			c.Write(append([]byte{byte(len(m) >> 8), byte(len(m))}, m...))
+		}
+	} else {
+		if c := dial("a TLS client that sent a 5-octet message"); c != nil {
+			tc := tls.Client(c, &tls.Config{InsecureSkipVerify: true})
+			tc.SetDeadline(time.Now().Add(waitLong))
+			if tc.Handshake() == nil {
+				tc.Write([]byte{0, 5, 0x1b, 0x58, 1, 0, 0})
+			}
+		}
+		if c := dial("a TLS client that refuses the certificate"); c != nil {
+			tc := tls.Client(c, &tls.Config{ServerName: "verif.invalid"})
+			tc.SetDeadline(time.Now().Add(waitLong))
+			tc.Handshake()
+		}
+	}
+	st["real_tcp_noise_clients"] += len(ns.conns)
+	return ns
+}
+
+// stillOpen: every noise client must see its connection end (EOF / reset); a read that is still
+// blocked after the bound means the server holds the connection open.  Called only after Shutdown
+// and the serve call have returned, when the server has closed everything it accepted (what it had
+// not accepted died with the listener).
+func (ns *noiseSet) stillOpen() string {
+	for _, nc := range ns.conns {
+		bound := waitLong
+		if noiseOpenConfirmed >= 2 {
+			bound = 300 * time.Millisecond
+		}
+		nc.c.SetReadDeadline(time.Now().Add(bound))
+		buf := make([]byte, 4096)
+		for {
+			_, err := nc.c.Read(buf)
+			if err == nil {
+				continue // (an alert, an answer of the server itself)
+			}
+			if ne, ok := err.(net.Error); ok && ne.Timeout() {
+				noiseOpenConfirmed++
+				return nc.what
+			}
+			break
+		}
+		st["real_noise_connections_seen_closed_checked"]++
+	}
+	return ""
+}
+func (ns *noiseSet) closeAll() {
+	for _, nc := range ns.conns {
+		nc.c.Close()
+	}
 }
 
 // ---------------------------------------------------------------- failed start
